@@ -53,6 +53,9 @@ CHECKS = {
  "C02": (MC, "exhaustive enumeration of message streams x segmentations (every 1-cut, every 2-cut over header/boundary positions, fixed read sizes incl. 1-byte dribble and the 2048-byte boundary) through the real controller and switch receive paths",
          "Streams of <=2 (quick) / <=3 (thorough) messages from 8 (controller side) / 7 (switch side) well-formed messages of 8 to 2500 bytes, each stream fed through Connection.read() (real recv(2048) splitting) and through the switch's IOWorker._do_recv -> OFConnection.read in every listed segmentation; after every read the delivered messages must be exactly those completely contained in the bytes fed so far, in order, once, each re-packing to its slice; residual buffer empty at the end.",
          "Stream encoders mc/refs/ofwire.py, ofwire_s2c.py (spec transcriptions); receivers are reused only when verifiably back in their initial state.", "DESIGN.md 4 C02"),
+ "C19": (MC, "exhaustive enumeration of multigraphs through the real spanning-tree code with a flood-simulation oracle; exhaustive enumeration of link/switch event histories on a closed system of real switches, real LLDP discovery and the real FLOOD action (netsim); exhaustive probe codec lattice",
+         "G: every multigraph on 2-4 switches (thorough 5) over a 7-element per-pair alphabet (none, one-way either way, bidirectional, parallel, mixed), dpids in and against sorted order. H: every sequence of <=3 (quick) / <=4 events on a triangle and <=2 / <=3 on a square with a diagonal, events = a link going down / up / one-way in either direction, switch disconnect / connect; after each event and settling under the virtual clock: adjacency == physical directed links, LinkEvents alternate, a frame really flooded from every switch reaches every switch of its component exactly once and is delivered on host-facing ports. P: probe encode/decode for 4^6 (thorough 4^8) dpids x 8 port numbers.",
+         "Settling = three send cycles 4 s apart + expiry + one more cycle; a disconnected switch is treated as gone; reconnecting switches come back with default port configuration; no self-loops.", "DESIGN.md 4 C19"),
 }
 
 PENDING_REASON = "check under construction in this round (design in DESIGN.md section 4); not claimed until its harness is committed and silent on the unchanged tree"
